@@ -168,7 +168,7 @@ def run(chk):
     prog, base = setup(chk)
     chk.bounds = ["all 2^256 strings of length 32 (symbolic bytes); every other length via one symbolic length"]
     chk.outside = ["'y is the y-coordinate of a curve point' <=> (y^2-1)/(d*y^2+1) is a square: definition of the curve, d*y^2+1 != 0 by the concrete Euler criterion"]
-    chk.assumptions = ["SqrtRatio replaced by its C16 contract (re-discharged here for the exponent chain and field kernels; the case logic is C16's own check)",
+    chk.assumptions = ["SqrtRatio replaced by its C16 contract inside Point.SetBytes; the contract itself (exponent chain, field kernels and the case logic of the real body) is re-discharged in this run",
                        "Element.SetBytes = low 255 bits (C10 contract re-discharged here)"]
     items = list(field_contracts(base, chk))
     items += [("SetBytes(field)", lambda: K.k_setbytes(base, chk)), ("Select/Swap", lambda: K.k_select_swap(base, chk)), ("Pow22523", lambda: K.k_chain(base, chk, "Pow22523"))]
@@ -176,7 +176,14 @@ def run(chk):
     PT = prog.T(E + "Point")
     items += [("Point.SetBytes", lambda: k_setbytes(l1)),
               ("len", lambda: K.k_len_reject(base, chk, prog.find("Point).SetBytes"), 32, PT, "Point.SetBytes"))]
+    # the SqrtRatio contract that Point.SetBytes is analysed against is discharged in this run as well (case analysis of the
+    # real body, as in C16), so that this check stands on its own
+    from . import c16
+    from .c09 import k_absolute
+    items += c16.sqrt_case_items(base, chk) + [("Equal/IsNegative", lambda: K.k_equal_isneg(base, chk)), ("reduce", lambda: K.k_reduce(base, chk)), ("Bytes", lambda: K.k_bytes(base, chk)),
+                                                ("Absolute", lambda: k_absolute(base, chk))]
     run_kernels(chk, items)
+    c16.sqrt_settle(chk)
     L1m.settle(chk, [o for o in chk.obs if o.name.startswith("Point.SetBytes")], lambda: decode_battery(chk.seed), "Point.SetBytes")
     chk.samples = [o.j() for o in chk.obs if o.name.startswith("Point.SetBytes")][:6]
 
